@@ -129,9 +129,9 @@ class Vector(Base):
                 values=np.abs(self.x.values), unit=self.x.unit, name=self.name
             )
         out = self.x.values * self.x.values
-        out += self.y.values * self.y.values
+        out = out + self.y.values * self.y.values
         if self.z is not None:
-            out += self.z.values * self.z.values
+            out = out + self.z.values * self.z.values
         return Array(values=np.sqrt(out), unit=self.x.unit, name=self.name)
 
     @property
@@ -293,12 +293,9 @@ class Vector(Base):
         return Array(values=out, unit=unit)
 
     def cross(self, other):
-        x = self.y * other.z
-        x -= self.z * other.y
-        y = self.z * other.x
-        y -= self.x * other.z
-        z = self.x * other.y
-        z -= self.y * other.x
+        x = self.y * other.z - self.z * other.y
+        y = self.z * other.x - self.x * other.z
+        z = self.x * other.y - self.y * other.x
         return self.__class__(x, y, z)
 
 
